@@ -134,6 +134,19 @@ func traceAddr1(v ssa.Value, followCopies bool) *trace {
 					v = ta.X
 					continue
 				}
+				if call, ok := x.Tuple.(*ssa.Call); ok {
+					// one result of a multi-value accessor: match, slot, last, err := ht.probe(k, h)
+					if sum := accessorSummaryN(call.Call.StaticCallee(), x.Index); sum != nil {
+						t.fields = append(t.fields, sum.fields...)
+						t.owners = append(t.owners, sum.owners...)
+						for _, i := range sum.params {
+							if i < len(call.Call.Args) {
+								walk(call.Call.Args[i], thr || sum.thr)
+							}
+						}
+						return
+					}
+				}
 				if nx, ok := x.Tuple.(*ssa.Next); ok && x.Index >= 1 {
 					// key/value of a map or string range: element of the ranged collection
 					if rg, ok := nx.Iter.(*ssa.Range); ok {
@@ -227,50 +240,67 @@ type accessorSum struct {
 	thr    bool
 }
 
-var accessorCache = map[*ssa.Function]*accessorSum{}
-var accessorBusy = map[*ssa.Function]bool{}
+type accKey struct {
+	fn  *ssa.Function
+	idx int
+}
+
+var accessorCache = map[accKey]*accessorSum{}
+var accessorBusy = map[accKey]bool{}
+
+// accessorSummary is accessorSummaryN for single-result functions.
+func accessorSummary(fn *ssa.Function) *accessorSum {
+	if fn == nil || fn.Signature.Results().Len() != 1 {
+		return nil
+	}
+	return accessorSummaryN(fn, 0)
+}
 
 // accessorSummary: fn is a function of the module with a single address-like
 // result, every return of which denotes storage reached from fn's parameters
 // by field/element selection only (no allocation, no call results, no globals).
-func accessorSummary(fn *ssa.Function) *accessorSum {
-	if fn == nil || fn.Blocks == nil || fn.Signature.Results().Len() != 1 {
+func accessorSummaryN(fn *ssa.Function, idx int) *accessorSum {
+	if fn == nil || fn.Blocks == nil || idx >= fn.Signature.Results().Len() {
 		return nil
 	}
 	if p := fnPkgPath(fn); p != modPath && !strings.HasPrefix(p, modPath+"/") {
 		return nil
 	}
-	switch fn.Signature.Results().At(0).Type().Underlying().(type) {
+	switch fn.Signature.Results().At(idx).Type().Underlying().(type) {
 	case *types.Pointer:
 	default:
 		return nil
 	}
-	if s, ok := accessorCache[fn]; ok {
+	key := accKey{fn, idx}
+	if s, ok := accessorCache[key]; ok {
 		return s
 	}
-	if accessorBusy[fn] {
+	if accessorBusy[key] {
 		return nil
 	}
-	accessorBusy[fn] = true
-	defer delete(accessorBusy, fn)
+	accessorBusy[key] = true
+	defer delete(accessorBusy, key)
 	sum := &accessorSum{}
 	ok := true
 	nret := 0
 	seenP := map[int]bool{}
 	eachInstr(fn, func(in ssa.Instruction) {
 		ret, isRet := in.(*ssa.Return)
-		if !isRet || len(ret.Results) != 1 {
+		if !isRet || len(ret.Results) <= idx || in.Parent() != fn {
 			return
 		}
 		nret++
-		if k, isK := ret.Results[0].(*ssa.Const); isK && k.IsNil() {
+		if k, isK := ret.Results[idx].(*ssa.Const); isK && k.IsNil() {
 			return
 		}
-		tr := traceAddr(ret.Results[0])
+		tr := traceAddr(ret.Results[idx])
 		if len(tr.fields) == 0 {
 			ok = false // returns a parameter itself or something opaque: not an interior accessor
 		}
 		for _, b := range tr.bases {
+			if k, isK := b.v.(*ssa.Const); isK && k.IsNil() {
+				continue // "not found" on some path
+			}
 			prm, isP := b.v.(*ssa.Parameter)
 			if !isP {
 				ok = false
@@ -292,7 +322,7 @@ func accessorSummary(fn *ssa.Function) *accessorSum {
 	if !ok || nret == 0 || len(sum.params) == 0 {
 		sum = nil
 	}
-	accessorCache[fn] = sum
+	accessorCache[key] = sum
 	return sum
 }
 
